@@ -105,6 +105,22 @@ theorem args_sizes (argv : List Bytes) (mem : Mem) (cP sP : Nat)
   rw [storeBytes_put _ sP _ (by rw [put_length _ _ _ (by simp [leBytes_length]; omega)]; simp [leBytes_length]; omega)]
   rfl
 
+/-- **args_sizes_use_argc.**  The reported sizes are a function of the FIRST `argc` entries of the embedder's
+    `argv` array only: entries behind them (an array longer than `argc`, as any NULL-terminated `argv`
+    passed with a smaller count) do not count, and `argc = 0` never touches the array, not even a NULL one. -/
+theorem args_sizes_use_argc (mem : Mem) (cP sP : Nat) :
+    (∀ (a : List Bytes) (argc : Nat), argc ≤ a.length →
+      argsSizesGetArr (some a) argc mem cP sP = argsSizesGet (a.take argc) mem cP sP) ∧
+    argsSizesGetArr none 0 mem cP sP = argsSizesGet [] mem cP sP ∧
+    (∀ a : List Bytes, argsSizesGetArr (some a) 0 mem cP sP = argsSizesGet [] mem cP sP) := by
+  refine ⟨?_, ?_, ?_⟩
+  · intro a argc h
+    simp only [argsSizesGetArr, Gen.WasiPath.argsSizesLoopUsesArgc, if_true, h, argsSizesGet, List.length_take,
+      Nat.min_eq_left h]
+  · simp [argsSizesGetArr, Gen.WasiPath.argsSizesLoopUsesArgc, argsSizesGet, sizeLoop]
+  · intro a
+    simp [argsSizesGetArr, Gen.WasiPath.argsSizesLoopUsesArgc, argsSizesGet, sizeLoop]
+
 /-- **sizes_agree_with_get.**  The size `args_sizes_get` reports is exactly the number of bytes
     `args_get` writes into the string buffer, and the count is the number of pointer entries. -/
 theorem sizes_agree_with_get (argv : List Bytes) :
@@ -316,6 +332,18 @@ theorem tid_distinct (hasExport : Bool) (s : Sys) (h : Reach hasExport s) :
     (∀ i tid, heldAt s i = some tid → 1 ≤ tid ∧ tid < s.next ∧ s.next < 4294967296) := by
   have ha := (Inv_reach hasExport s h).1
   exact ⟨ha.distinct, fun i tid hi => ⟨(ha.held i tid hi).1, (ha.held i tid hi).2, ha.nextHi⟩⟩
+
+/-- **spawn_id_read_before_start.**  The regenerated event order of `wasi__threadX2Dspawn`: the fetch-and-add
+    result goes to a LOCAL, then newChild, the block is filled, the thread is created, and the LOCAL is
+    returned — the ThreadStartArg block (which the new thread frees) is never accessed after
+    WASM_THREAD_CREATE.  Hence the returned value is the allocated id whether or not the new thread has
+    already run to completion. -/
+theorem spawn_id_read_before_start :
+    Gen.WasiPath.spawnEvents = ["fetchAdd:local", "newChild", "store:id", "create", "return:local"] ∧
+    ∀ (finished : Bool) (tid : Nat), spawnReturn finished tid = .val tid := by
+  refine ⟨by decide, ?_⟩
+  intro f t
+  simp [spawnReturn, Gen.WasiPath.spawnReturnsLocalId]
 
 /-- a returned identifier is what the call holds -/
 theorem returned_is_held (s : Sys) (i arg tid : Nat) (h : s.calls[i]? = some (.done arg (some tid))) :
